@@ -3,7 +3,7 @@
    evaluator model coq/Sem.v (every value a heap cell), on a fragment:
 
      expressions  number / bool / ASCII string literals, variables, groups, unary - and !,
-                  binary + - * / < <= > >= on numbers, + and the comparisons on strings,
+                  binary + - * / % < <= > >= on numbers, + and the comparisons on strings,
                   == and != on numbers, bools and strings;
      statements   declarations, assignments to variables, if / else if / else, while, break,
                   the empty statement — declarations anywhere (block scopes).
@@ -30,6 +30,7 @@ Module CS := CompileSem.
 Definition trop (op : C.binop) : option binop :=
   match op with
   | C.BPlus => Some BPlus | C.BMinus => Some BMinus | C.BStar => Some BAsterisk | C.BSlash => Some BSlash
+  | C.BPercent => Some BPercent
   | C.BLt => Some BLt | C.BLe => Some BLtEq | C.BGt => Some BGt | C.BGe => Some BGtEq
   | C.BEq => Some BEq | C.BNe => Some BNotEq
   | _ => None
@@ -235,6 +236,20 @@ Proof. intro H. unfold bindM, load_str, bindM, load. rewrite H. reflexivity. Qed
 Lemma run_load_bool {A} (k : bool -> M A) s l f : hget (st_heap s) l = Some (HBool f) -> bindM (load_bool l) k s = k f s.
 Proof. intro H. unfold bindM, load_bool, bindM, load. rewrite H. reflexivity. Qed.
 
+(* math.Mod: the VM model's and the evaluator model's definitions agree *)
+Lemma is_nan_spec x : is_nan x = match Prim2SF x with SpecFloat.S754_nan => true | _ => false end.
+Proof.
+  unfold is_nan. rewrite FloatAxioms.eqb_spec. unfold SpecFloat.SFeqb, SpecFloat.SFcompare.
+  destruct (Prim2SF x) as [s|s| |s m e]; try reflexivity.
+  - destruct s; reflexivity.
+  - rewrite Z.compare_refl, Pos.compare_cont_refl. destruct s; reflexivity.
+Qed.
+Lemma float_mod_fmod x y : Vm.float_mod x y = fmod x y.
+Proof.
+  unfold Vm.float_mod, fmod. rewrite !is_nan_spec.
+  destruct (Prim2SF x) as [sx|sx| |sx mx ex], (Prim2SF y) as [sy|sy| |sy my ey]; try reflexivity.
+Qed.
+
 (* value.Equals on two cells that hold plain values *)
 Lemma equals_tie d s la lb a b t :
   holds (st_heap s) la a -> holds (st_heap s) lb b -> Vm.val_equals a b = Some t ->
@@ -262,6 +277,7 @@ Proof.
   all: try (destruct (PrimFloat.eqb y 0); [discriminate Hv|]).
   all: inversion Hv; subst v; clear Hv; eexists; (split; [reflexivity|]); intros h l Hl.
   all: try (apply h_num; exact Hl); try (apply h_bool; exact Hl).
+  all: try (rewrite float_mod_fmod; apply h_num; exact Hl).
   all: try (apply h_str; [exact Hl | apply is_ascii_app; assumption]).
 Qed.
 
@@ -336,7 +352,7 @@ Proof.
     destruct (Pre 1%nat) as [Pr|]; [|discriminate]. clear Pre.
     destruct (value_depth_S) as [d Hd].
     destruct op; simpl in H; inversion H; subst op'; clear H.
-    9,10: simpl in Ev; destruct (Vm.val_equals a b) as [tb|] eqn:Q; [|discriminate]; inversion Ev; subst v;
+    10,11: simpl in Ev; destruct (Vm.val_equals a b) as [tb|] eqn:Q; [|discriminate]; inversion Ev; subst v;
       rewrite run_depth, Hd in Pr;
       rewrite (run_ok _ _ _ _ _ (equals_tie d s2 la lb a b tb Hl1' Hl2 Q)) in Pr;
       eexists _, _, _; (split; [exact Pr|]); (split; [apply h_bool, hget_allocst|]);
@@ -973,6 +989,5 @@ Qed.
      the tie needs utf8_decode (utf8_encode s) = s and that byte-wise comparison of encodings
      is code-point comparison, for valid code points; no such lemma exists yet.  (ASCII:
      utf8_ascii above.)
-   - % : Vm.float_mod and Num.fmod are two definitions of math.Mod whose equality is not proved.
    - the converse (lx_l undefined => Sem.v panics) is not an equivalence: x / 0 is undefined in
      lx_l (the VM raises "division by zero") and +Inf in Sem.v (the evaluator divides). *)
